@@ -3,7 +3,8 @@ from .common import Decision, run_units
 from .series_props import fold_canaries
 from .hermitian_common import specs_hermitian, LEAN_SETTING_NOTE
 
-LEAN = ["PV.C03_unique", "PV.lsa_unique", "PV.code_least_action", "PV.C03_gauge", "PV.C02_adjoint", "PV.C02_unit_left", "PV.C01_similarity", "PV.C01_eliminated"]
+LEAN = ["PV.C03_unique", "PV.lsa_unique", "PV.code_least_action", "PV.C03_gauge", "PV.C02_adjoint", "PV.C02_unit_left", "PV.C01_similarity", "PV.C01_eliminated",
+        "PV.TB.toMain", "PV.TB.C03_gauge", "PV.TB.C03_unique", "PV.TB.same_as_general"]
 
 
 def check(tier, seed):
